@@ -2024,12 +2024,26 @@ impl OwnedTerm {
             _ => None,
         }
     }
+
+    /// An improper list without elements has no cons cell: it is its tail
+    /// (`binary_to_term` decodes a `LIST_EXT` of length zero to the tail term).
+    fn without_empty_cells(&self) -> &OwnedTerm {
+        let mut term = self;
+        while let OwnedTerm::ImproperList { elements, tail } = term {
+            if !elements.is_empty() {
+                break;
+            }
+            term = tail;
+        }
+        term
+    }
 }
 
 impl Ord for OwnedTerm {
     fn cmp(&self, other: &Self) -> Ordering {
-        if discriminant(self) == discriminant(other) {
-            match (self, other) {
+        let (this, other) = (self.without_empty_cells(), other.without_empty_cells());
+        if discriminant(this) == discriminant(other) {
+            match (this, other) {
                 (OwnedTerm::Integer(a), OwnedTerm::Integer(b)) => return a.cmp(b),
                 (OwnedTerm::Atom(a), OwnedTerm::Atom(b)) => return a.name.cmp(&b.name),
                 (OwnedTerm::Binary(a), OwnedTerm::Binary(b)) => return a.cmp(b),
@@ -2039,8 +2053,8 @@ impl Ord for OwnedTerm {
             }
         }
 
-        match term_type_order(self).cmp(&term_type_order(other)) {
-            Ordering::Equal => match (self, other) {
+        match term_type_order(this).cmp(&term_type_order(other)) {
+            Ordering::Equal => match (this, other) {
                 (OwnedTerm::Integer(a), OwnedTerm::Integer(b)) => a.cmp(b),
                 (OwnedTerm::Integer(a), OwnedTerm::BigInt(b)) => compare_int_bigint(*a, b),
                 (OwnedTerm::BigInt(a), OwnedTerm::Integer(b)) => compare_bigint_int(a, *b),
@@ -2140,12 +2154,12 @@ impl Ord for OwnedTerm {
                         bits: bbits,
                     },
                 ) => a.cmp(b).then_with(|| abits.cmp(bbits)),
-                _ => match (self.bitstring_parts(), other.bitstring_parts()) {
+                _ => match (this.bitstring_parts(), other.bitstring_parts()) {
                     // For bit-strings whose unused trailing bits are zero this is the bit-wise order.
                     (Some((a, abits)), Some((b, bbits))) => {
                         a.cmp(b).then_with(|| abits.cmp(&bbits))
                     }
-                    _ => compare_list_terms(self, other),
+                    _ => compare_list_terms(this, other),
                 },
             },
             other => other,
